@@ -31,6 +31,10 @@ CHECKS["C03"] = dict(level="exploration", ref="6/C03",
    text="Seeded search over byte strings (corpus, packager streams, size-repaired unit-transport rearrangements), reader delivery schedules, stream cuts/read errors and sink capacities; the property's precondition (a path accepts and reproduces X exactly) is implemented literally and the other path must then accept and be deep-equal incl. grouping and start positions; Encode vs EncodeSW compared on sampled nodes with identical capacity on both sinks.",
    note="Deep equality is reflective (unexported fields, nil==empty); box types covered are those occurring in corpus/packager/transport output; decoder-table key sets compared through an add-only export file injected by -overlay.",
    technique="deterministic simulation: reader delivery/cut/EIO schedules + unit transport + common sink capacity; slice path as reference for stream path and vice versa")
+CHECKS["C04"] = dict(level="exploration", ref="6/C04",
+   text="Seeded fault injection into real and packager-made streams: unit transport at any depth with repaired or stale sizes, stored-byte faults placed on size/type/version/count fields by an independent header walk, truncation, EIO, seek errors, adversarial delivery; every library call (decode by four consumers x flags, Info at three levels, Size, Encode, EncodeSW in both modes) runs under no-panic, allocation-budget and wall-budget oracles in isolated worker processes with a hang/crash watchdog. Sampling: a clean batch is evidence, not proof.",
+   note="Budget constants are ours (property fixes none): 160 MiB + 768 B/byte and 2 s + 200 us/byte, >=10x the maxima measured on the unchanged tree and reported in evidence; memory is measured not faulted; wall-clock overruns are confirmed by repetition and hangs in fresh processes. Sample-table queries on untrusted input (CopySampleData etc.) are outside the statement and not checked here.",
+   technique="deterministic simulation with storage/transport fault injection: no-panic, allocation and time budgets per step; isolated workers + watchdog")
 PENDING = {k: "claimed in DESIGN.md but its check is not built yet in this revision (work in progress; will move to checks)" for k in ["C02","C03","C04","C05","C06","C10","C11","C12","C19","C20"] if k not in CHECKS}
 def main():
     checks = []
